@@ -654,21 +654,24 @@ theorem finishScenario_inv (e : Env) (σ : St) (h : Inv e σ) : Inv e (finishSce
   · exact hacc
   · exact scheduleContainer_inv e acc t hacc
 
+theorem todoOf_leaf (e : Env) (σ : St) : ∀ t ∈ todoOf e σ, (e.taskD t).leaf = true := by
+  intro t ht
+  unfold todoOf at ht
+  have := (List.mem_filter.mp (List.mem_mergeSort.mp ht)).2
+  simp only [Bool.and_eq_true] at this
+  exact this.1
+
+theorem preLoop_inv (e : Env) (σ : St) (h : Inv e σ) : Inv e (preLoop e σ) :=
+  updateContainers_inv e _ (propagateAlap_inv e _ (milestonePrepass_inv e σ h))
+
 theorem scheduleScenario_inv (e : Env) (σ : St) (wf : WF e) (h : Inv e σ) : Inv e (scheduleScenario e σ) := by
   unfold scheduleScenario
   simp only []
-  have h2 := updateContainers_inv e _ (propagateAlap_inv e _ (milestonePrepass_inv e σ h))
-  have hlv : ∀ t ∈ ((List.range e.tasks.size).filter (fun t => (e.taskD t).leaf &&
-      !((updateContainers e (propagateAlap e (milestonePrepass e σ))).tst t).scheduled)).mergeSort (prioLe e),
-      (e.taskD t).leaf = true := by
-    intro t ht
-    have := (List.mem_mergeSort.mp ht)
-    have := (List.mem_filter.mp this).2
-    simp only [Bool.and_eq_true] at this
-    exact this.1
+  have h3 := pickLoop_inv e ((todoOf e (preLoop e σ)).length + 1) (todoOf e (preLoop e σ)) [] _ wf (preLoop_inv e σ h)
+    (todoOf_leaf e _)
   split
-  · exact pickLoop_inv e _ _ [] _ wf h2 hlv
-  · exact Inv.of_eq (σ := (pickLoop e _ _ [] _).1) rfl rfl (pickLoop_inv e _ _ [] _ wf h2 hlv)
+  · exact h3
+  · exact Inv.of_eq (σ := (pickLoop e _ _ [] _).1) rfl rfl h3
 
 /-- **every state a scenario run ends in satisfies the invariant** -/
 theorem runScenario_inv (e : Env) (wf : WF e) : Inv e (runScenario e) := by
